@@ -72,6 +72,11 @@ def gen_case(rnd):
     # pipelines of both modes live in one driver process, in random order), or the shared default (indented) instance
     r = rnd.random()
     m["how"] = 0 if r < 0.4 else (3 if r < 0.6 else (1 if r < 0.92 or compact else 2))
+    if rnd.random() < 0.1:
+        # J3: the message is formatted twice - inside a scoped sub-pipeline that adds/overrides an attribute, and again after the scope
+        names = [n for n, _ in m["attrs"]]
+        m["how"] = 4
+        m["scope_attr"] = (rnd.choice(names) if names and rnd.random() < 0.5 else gen_name(rnd), gen_value(rnd, 3))
     return compact, m
 
 
@@ -180,7 +185,10 @@ def run(ctx):
     else:
         rnd = random.Random(ctx.seed * 32452843 + 13)
         cases = [gen_case(rnd) for _ in range(ctx.pick(20000, 1500000))]
-    lines = ["J2 %d %d %d %s" % (i, c, m.get("how", 0), enc_msg(m)) for i, (c, m) in enumerate(cases)]
+    from ..gen import enc_value
+    from ..core import hexs as _hexs
+    lines = [("J3 %d %d %s %s %s" % (i, c, _hexs(m["scope_attr"][0]), enc_value(m["scope_attr"][1]), enc_msg(m))) if m.get("how") == 4
+             else ("J2 %d %d %d %s" % (i, c, m.get("how", 0), enc_msg(m))) for i, (c, m) in enumerate(cases)]
     results, crashes = fmtdrv.run_cases(ctx, "san", lines, chunk=500, lags=fmtdrv.LAGS)
 
     def rep_of(c, m):
@@ -201,14 +209,22 @@ def run(ctx):
         if str(i) in crashed:
             continue
         n += 1
-        for key, what in check_one(c, m, results[str(i)]):
+        toks = results[str(i)]
+        if m.get("how") == 4:
+            # inner record: attributes with the scope's attribute added/overridden; outer record: the original attributes again
+            inner = dict(m, attrs=[(k, v) for k, v in m["attrs"] if k != m["scope_attr"][0]] + [tuple(m["scope_attr"])])
+            found = [("%s:inside-scope" % k, w) for k, w in check_one(c, inner, [toks[0]] + toks[2:])]
+            found += [("%s:after-scope" % k, w) for k, w in check_one(c, m, [toks[1]] + toks[2:])]
+        else:
+            found = check_one(c, m, toks)
+        for key, what in found:
             ctx.violation(key, "compact=%d text=%r attrs=%r :: %s" % (c, (m["text"] or "")[:60], m["attrs"][:3], what), rep_of(c, m))
         sig = (c, m.get("how", 0), text_classes(m["text"] or ""), tuple(sorted(shape(v) for _, v in m["attrs"])),
                m["file"] is None, m["func"] is None, m["type"])
         if sig[2] or sig[3]:
             distinct.add(sig)
         if len(samples) < 3 and sig[2] and sig[3] and i % 501 == 0:
-            samples.append({"compact": c, "obtained": ["constructor", "formatToJson()", "instance()", "long-lived instance"][m.get("how", 0)], "message": m["text"][:80], "attributes": [[k, v] for k, v in m["attrs"]][:4],
+            samples.append({"compact": c, "obtained": ["constructor", "formatToJson()", "instance()", "long-lived instance", "twice: inside and after a scoped sub-pipeline"][m.get("how", 0)], "message": m["text"][:80], "attributes": [[k, v] for k, v in m["attrs"]][:4],
                             "output": unhexs(results[str(i)][0])[:300]})
     cov = {
         "evaluations": n,
